@@ -70,7 +70,7 @@ CLAIMED["C13"] = ("model_checking",
   "Trusted: TLC, harness/project.go. Values are generated inside the schema type's range (32-bit for int schemas, unit multiples and UTC for long-based times).",
   "DESIGN.md section 6 C13")
 CLAIMED["C18"] = ("model_checking",
-  "TLA+ RFC 3339 grammar over byte sequences (TimeParse) model-checked against a reference formatter (MC_Time: parse(format(t)) on a civil-time grid, all fraction lengths/separators/offsets); every recorded parse of the real parser trace-validated (Trace_Codec!FailsTimeParse) with time.Parse logged as cross-check of the reference",
+  "TLA+ ZoneCache (the parser's zone cache under an application that holds parsed times: HeldStable, AddOnly; the overwrite-in-place defect cfg must violate HeldStable) model-checked; TLA+ RFC 3339 grammar over byte sequences (TimeParse) model-checked against a reference formatter (MC_Time: parse(format(t)) on a civil-time grid, all fraction lengths/separators/offsets); every recorded parse of the real parser trace-validated (Trace_Codec!FailsTimeParse) with time.Parse logged as cross-check of the reference",
   "Every string of the grammar-directed grid and of the seeded random families is parsed by the real code through three entry points; TLC demands the same civil time and UTC offset as the TLA+ grammar (which must itself agree with time.Parse on every string it accepts, else exit 2), midnight UTC for date-only strings, identity for format-then-parse, and no panic for ~1,000 damaged strings.",
   "Trusted: TLC, harness/project.go (time.Time accessors). time.Parse is more lenient than RFC 3339 (one-digit hours, +24:00); such strings are outside the property's domain and only no-panic is demanded.",
   "DESIGN.md section 6 C18")
